@@ -194,64 +194,22 @@ theorem C04_tempfile_counterexample_pinned :
     (pathOpWithHelper tempCfg_pinned { mkstempOk := false } 0 {}).2.bad = 2 ∧
     (pathOpWithHelper tempCfg_pinned { fdopenOk := false } 0 {}).2.tempFiles = 1 := by decide +kernel
 
-/-- **Stream ownership (partial).**  Proved here for `open ; close` through every entry point and
-every allocation oracle: the caller's FILE is never closed, a library-opened FILE is closed and its
-descriptor released, the close callback is called exactly once — also when cbopen refuses the
-callbacks or hio_open_callbacks fails — and no block is left.
-Full statement (goal): the same for every sequence `open_x ; reopen* ; close` (`streamLife` with an
-arbitrary `reopens` list).  Missing: the induction over the reopen list; sequences up to the depth
-the depackers produce are evaluated on the model by the driver and compared with the real close
-counts by the harness. -/
-theorem C04_stream_ownership_partial (e : Entry) (cb : Callbacks) (sizeOk : Bool) (w : World) :
-    let r := streamLife e cb sizeOk [] w
+/-- **Stream ownership.**  Over every sequence `open_x ; reopen* ; close` the library performs
+(every entry point `e`, every list of depacker steps `rs`: internal depacker → memory, external
+helper → temp FILE, each succeeding or failing), for every allocation oracle and every callback
+configuration (valid or refused by cbopen, with or without close function, size query failing in
+hio_open_callbacks): the caller's FILE is never closed, every descriptor the library opened is
+closed again (`openFds` restored: an owned FILE is closed exactly once), the close callback is
+called exactly once when there is one — also when opening fails — and no block is left or freed
+twice. -/
+theorem C04_stream_ownership (e : Entry) (cb : Callbacks) (sizeOk : Bool) (rs : List (Bool × Bool)) (w : World) :
+    let r := streamLife e cb sizeOk rs w
     (r.2.closed.count .callerFile = w.closed.count .callerFile) ∧
-    (r.2.closed.count .callback = w.closed.count .callback + (if e = .cb ∧ cb.hasClose then 1 else 0)) ∧
-    r.2.openFds = w.openFds ∧ r.2.bad = w.bad ∧ r.2.live = w.live := by
-  unfold streamLife openEntry
-  cases e
-  · -- path
-    unfold hioOpenPath
-    rcases alloc_cases w ⟨.hio, 0⟩ with ha | ha <;> rw [ha]
-    · simp
-    · cases sizeOk <;>
-        simp [reopenSeq, hioClose, hioCloseInternal, World.fcloseOwned, World.free, List.count_cons]
-  · -- mem
-    unfold hioOpenMem
-    rcases alloc_cases w ⟨.hio, 0⟩ with ha | ha <;> rw [ha]
-    · simp
-    · simp only
-      generalize hw1 : ({ w with oracle := w.oracle.tail, nalloc := w.nalloc + 1, live := ⟨.hio, 0⟩ :: w.live } : World) = w1
-      have h1 : w1.live = ⟨.hio, 0⟩ :: w.live ∧ w1.bad = w.bad ∧ w1.closed = w.closed ∧ w1.openFds = w.openFds := by
-        subst hw1; simp
-      obtain ⟨l1, b1, c1, f1⟩ := h1
-      rcases alloc_cases w1 ⟨.mfile, 0⟩ with hb | hb <;> rw [hb]
-      · simp [World.free, l1, b1, c1, f1]
-      · simp [reopenSeq, hioClose, hioCloseInternal, World.free, l1, b1, c1, f1, List.erase_cons]
-  · -- file
-    unfold hioOpenFile
-    rcases alloc_cases w ⟨.hio, 0⟩ with ha | ha <;> rw [ha]
-    · simp
-    · cases sizeOk <;> simp [reopenSeq, hioClose, hioCloseInternal, World.free]
-  · -- callbacks
-    obtain ⟨valid, hasClose, szOk⟩ := cb
-    unfold hioOpenCallbacks cbopen
-    cases valid
-    · cases hasClose <;> simp [World.close, List.count_cons]
-    · simp only [Bool.not_true, Bool.false_eq_true, if_false]
-      rcases alloc_cases w ⟨.cbfile, 0⟩ with ha | ha <;> rw [ha]
-      · cases hasClose <;> simp [World.close, List.count_cons]
-      · simp only
-        generalize hw1 : ({ w with oracle := w.oracle.tail, nalloc := w.nalloc + 1, live := ⟨.cbfile, 0⟩ :: w.live } : World) = w1
-        have h1 : w1.live = ⟨.cbfile, 0⟩ :: w.live ∧ w1.bad = w.bad ∧ w1.closed = w.closed ∧ w1.openFds = w.openFds := by
-          subst hw1; simp
-        obtain ⟨l1, b1, c1, f1⟩ := h1
-        rcases alloc_cases w1 ⟨.hio, 0⟩ with hb | hb <;> rw [hb]
-        · cases hasClose <;> simp [cbclose, World.close, World.free, l1, b1, c1, f1, List.count_cons]
-        · cases hasClose <;> cases szOk <;>
-            simp [reopenSeq, hioClose, hioCloseInternal, cbclose, World.close, World.free, l1, b1, c1, f1,
-              List.count_cons, List.erase_cons]
+    (r.2.closed.count .callback = w.closed.count .callback + (if e = .cb ∧ cb.hasClose = true then 1 else 0)) ∧
+    r.2.openFds = w.openFds ∧ r.2.bad = w.bad ∧ (∀ u, r.2.live.count u = w.live.count u) :=
+  stream_ownership e cb sizeOk rs w
 
-/-- non-trivial instances with reopens (evaluated, not general): a caller's FILE that is unpacked
+/-- non-trivial instances with reopens: a caller's FILE that is unpacked
 twice in memory is never closed; a path load through an internal depacker and then an external
 helper closes the owned FILE and the temp FILE once each -/
 example :
